@@ -10,7 +10,9 @@ SPEC = dict(
                 "filtered sources; terms with size 0..100, numeric ranges incl. +-Inf bounds, date ranges incl. open ends, each "
                 "with 0-2 nested metrics; cardinality and quantiles through recording sources) x 7 collector settings "
                 "(AllMatches; TopNSearch / TopNCollector with n in {0,1,..,switch+1,count+2}, from, After, Before, reverse; sort "
-                "orders sharing fields with the aggregations every sixth list). Every value read back (metric bits, bucket names "
+                "orders sharing fields with the aggregations every sixth list); sketch metrics also nested in buckets; aggregation objects "
+                "reused across two searches; 35 shard-split Bucket.Merge sequences (2-3 shards, every intermediate result read back); "
+                "6 bluge.MultiSearch runs over 2-3 indexes. Every value read back (metric bits, bucket names "
                 "in returned order, counts, nested metrics, Other(), values handed to the sketches) is validated against the "
                 "model state. non-trivial = at least one match; distinct = distinct Coq case terms. oracle evaluations: every "
                 "aggregation of every run compared with direct counting over the generator's own record of the matched "
@@ -31,11 +33,15 @@ META = dict(
     text=("Coq theorems over an executable model of search/aggregations.go and search/aggregations/*.go joined to the collector "
           "model of C09: the root bucket is fed every hit before paging/pruning, so the aggregation state equals that of the "
           "complete match list for every n, from, sort, After/Before; count, sum, min, max, avg, weighted avg, terms and range "
-          "bucket contents are characterised against direct definitions over the matched documents' values. Tied to the code on "
-          "every run by vm_compute validation of every value read back from the implementation."),
+          "bucket contents are characterised against direct definitions over the matched documents' values; Bucket.Merge and the "
+          "calculators' Merge are modelled and merge_exact is proved per calculator (sum, count, min, max, avg, weighted avg, "
+          "ranges, untrimmed terms, sketches as concatenation of their inputs), with the trimmed-terms case refuted by a witness. "
+          "Tied to the code on every run by vm_compute validation of every value read back from the implementation, including "
+          "shard-by-shard Bucket.Merge sequences and bluge.MultiSearch over 2-3 indexes."),
     design_ref="DESIGN.md Part 2 C16",
     note=("Trusted: Coq kernel, goextract, harness. Sketches (hyperloglog, t-digest) are parameters: the theorems say what is "
-          "fed to them. Two defects found by this check were repaired in /repo (duplicate doc-value loading; range "
+          "fed to them (and, for Merge, assume smerge (sketch a) (sketch b) = sketch (a ++ b)). Known: merging trimmed terms "
+          "lists is approximate (C16-merge-terms-trimmed), t-digest ulp non-monotonicity (C16-quantile-ulp). Two defects found by this check were repaired in /repo (duplicate doc-value loading; range "
           "aggregations not reporting nested fields)."),
     technique="Coq proof (structural induction over aggregation trees, exact rationals) + vm_compute correspondence",
 )
